@@ -56,9 +56,9 @@ Proof.
 Qed.
 
 (* ---------- tidy without any guard ---------- *)
-Lemma combine_tidy a b c : combine a b = Ret c -> tidy a -> tidy b -> stype b <> TVerbatim -> tidy c /\ emits c = emits a || emits b.
+Lemma combine_tidy a b c : combine a b = Ret c -> tidy a -> tidy b -> tidy c /\ emits c = emits a || emits b.
 Proof.
-  intros H Ta Tb Nv. destruct (emits b) eqn:Eb.
+  intros H Ta Tb. destruct (emits b) eqn:Eb.
   - assert (Tyb : stype b = TEndogenous) by (unfold tidy in Tb; rewrite Eb in Tb; exact Tb).
     destruct (combine_emitting_r _ _ _ H Tyb Eb) as [Ec Tc]. split; [unfold tidy; rewrite Ec; exact Tc|rewrite Ec, orb_true_r; reflexivity].
   - destruct (combine_nonemitting_r _ _ _ H Ta Tb Eb) as [Ec Tc]. split; [exact Tc|rewrite Ec, orb_false_r; reflexivity].
@@ -70,18 +70,18 @@ Lemma go_tidy eqn code terms : forall d fs d',
 Proof.
   induction terms as [|t rest IH]; intros d fs d' Hd; cbn [equation_symbols_go].
   - intros H; inversion H; subst. exact Hd.
-  - assert (COMB : forall sym, tidy sym -> stype sym <> TVerbatim ->
+  - assert (COMB : forall sym, tidy sym ->
               match dict_combine (tname t) sym d with Ret dd => equation_symbols_go eqn code rest dd fs | Raise e => Raise e end = Ret d' ->
               forall v, In v (dict_values d') -> tidy v).
-    { intros sym Ts Nv. unfold dict_combine. destruct (dict_get (tname t) d) as [old|] eqn:Eg.
+    { intros sym Ts. unfold dict_combine. destruct (dict_get (tname t) d) as [old|] eqn:Eg.
       - destruct (combine old sym) as [c|] eqn:Ec; [|discriminate]. apply IH.
-        destruct (combine_tidy _ _ _ Ec (Hd old (dict_get_in _ _ _ Eg)) Ts Nv) as [Tc _].
+        destruct (combine_tidy _ _ _ Ec (Hd old (dict_get_in _ _ _ Eg)) Ts) as [Tc _].
         intros v Hv. destruct (dict_values_set_in _ _ _ _ Hv) as [->|Hv']; [exact Tc|apply Hd, Hv'].
       - destruct (combine sym sym) as [c|] eqn:Ec; [|discriminate]. apply IH.
         destruct (combine_self _ _ Ec) as (_ & Tc & _).
         intros v Hv. destruct (dict_values_set_in _ _ _ _ Hv) as [->|Hv']; [exact (Tc Ts)|apply Hd, Hv']. }
     destruct (ttype t) eqn:Ety.
-    all: try (apply COMB; [unfold tidy, emits; cbn; repeat split; try reflexivity; discriminate|cbn; discriminate]).
+    all: try (apply COMB; unfold tidy, emits; cbn; repeat split; try reflexivity; discriminate).
     + (* FUNCTION *)
       destruct (mem_string (tname t) fs); [apply IH, Hd|]. apply IH.
       intros v Hv. destruct (dict_values_set_in _ _ _ _ Hv) as [->|Hv']; [|apply Hd, Hv'].
@@ -171,26 +171,23 @@ Lemma merge_go_exact rest : forall d vb out,
   dict_ok d ->
   (forall s, In s rest -> sname s <> None -> tidy s) ->
   (forall v, In v (dict_values d) -> tidy v) ->
-  (forall s, In s rest -> stype s = TVerbatim -> sname s = None) ->
   merge_go rest d vb = Ret out ->
   n_emitted out = n_emitted (dict_values d) + n_emitted vb
                   + count_new (emit_names (dict_values d)) (emit_names rest) + n_emitted (unnamed rest).
 Proof.
-  induction rest as [|s rest IH]; intros d vb out Hd TR TD NV; cbn [merge_go].
+  induction rest as [|s rest IH]; intros d vb out Hd TR TD; cbn [merge_go].
   - intros H; inversion H; subst. rewrite n_emitted_app, n_emitted_rev. cbn. lia.
   - assert (TR' : forall x, In x rest -> sname x <> None -> tidy x) by (intros x Hx; apply TR; right; exact Hx).
-    assert (NV' : forall x, In x rest -> stype x = TVerbatim -> sname x = None) by (intros x Hx; apply NV; right; exact Hx).
     rewrite n_emitted_unnamed_cons. cbn [emit_names].
     destruct (sname s) as [k|] eqn:Ek; cbn [is_none].
     + assert (Ts : tidy s) by (apply TR; [left; reflexivity|congruence]).
-      assert (Nv : stype s <> TVerbatim) by (intros E; pose proof (NV s (or_introl eq_refl) E); congruence).
       unfold dict_combine. pose proof (emit_names_get d Hd k) as G. pose proof (n_emitted_dict_set k) as C.
       destruct (dict_get k d) as [old|] eqn:Eg.
       * destruct (combine old s) as [c|] eqn:Ec; [|discriminate]. intros H.
-        destruct (combine_tidy _ _ _ Ec (TD old (dict_get_in _ _ _ Eg)) Ts Nv) as [Tc Ece].
+        destruct (combine_tidy _ _ _ Ec (TD old (dict_get_in _ _ _ Eg)) Ts) as [Tc Ece].
         assert (Sc : sname c = Some k).
         { destruct (combine_ret _ _ _ Ec) as (Hn & _). rewrite Hn. exact (proj2 Hd _ _ (dict_get_in_pair _ _ _ Eg)). }
-        rewrite (IH (dict_set k c d) vb out (dict_ok_set _ _ _ Hd Sc) TR'); [| |exact NV'|exact H].
+        rewrite (IH (dict_set k c d) vb out (dict_ok_set _ _ _ Hd Sc) TR'); [| |exact H].
         2:{ intros v Hv. destruct (dict_values_set_in _ _ _ _ Hv) as [->|Hv']; [exact Tc|apply TD, Hv']. }
         specialize (C c d). rewrite Eg in C.
         pose proof (emit_names_set d Hd k c Sc) as M.
@@ -221,7 +218,7 @@ Proof.
       * destruct (combine s s) as [c|] eqn:Ec; [|discriminate]. intros H.
         destruct (combine_self _ _ Ec) as (Ece & Tc & _).
         assert (Sc : sname c = Some k) by (destruct (combine_ret _ _ _ Ec) as (Hn & _); congruence).
-        rewrite (IH (dict_set k c d) vb out (dict_ok_set _ _ _ Hd Sc) TR'); [| |exact NV'|exact H].
+        rewrite (IH (dict_set k c d) vb out (dict_ok_set _ _ _ Hd Sc) TR'); [| |exact H].
         2:{ intros v Hv. destruct (dict_values_set_in _ _ _ _ Hv) as [->|Hv']; [exact (Tc Ts)|apply TD, Hv']. }
         specialize (C c d). rewrite Eg in C. pose proof (emit_names_set d Hd k c Sc) as M. rewrite Ece in C, M.
         destruct (emits s) eqn:Es; cbn [count_new].
@@ -236,17 +233,94 @@ Proof.
            intros x. rewrite M. split.
            ++ intros [[_ E]|[_ A]]; [discriminate|exact A].
            ++ intros A. right. split; [intros ->; contradiction|exact A].
-    + intros H. rewrite (IH d (s :: vb) out Hd TR' TD NV' H), n_emitted_cons. lia.
+    + intros H. rewrite (IH d (s :: vb) out Hd TR' TD H), n_emitted_cons. lia.
 Qed.
 
 Theorem merge_symbols_exact by_eq out :
   (forall s, In s (concat by_eq) -> sname s <> None -> tidy s) ->
-  (forall s, In s (concat by_eq) -> stype s = TVerbatim -> sname s = None) ->
   merge_symbols by_eq = Ret out ->
   n_emitted out = count_new [] (emit_names (concat by_eq)) + n_emitted (unnamed (concat by_eq)).
 Proof.
-  intros T NV H. unfold merge_symbols in H.
-  rewrite (merge_go_exact (concat by_eq) [] [] out); [cbn; lia| |exact T| |exact NV|exact H].
+  intros T H. unfold merge_symbols in H.
+  rewrite (merge_go_exact (concat by_eq) [] [] out); [cbn; lia| |exact T| |exact H].
   - split; [constructor|intros k v []].
   - intros v [].
+Qed.
+
+(* ---------- per statement: a verbatim statement is one unnamed block, an equation has only named symbols ---------- *)
+Lemma go_dict_ok eqn code terms : forall d fs d',
+  dict_ok d -> equation_symbols_go eqn code terms d fs = Ret d' -> dict_ok d'.
+Proof.
+  induction terms as [|t rest IH]; intros d fs d' Hd; cbn [equation_symbols_go].
+  - intros H; inversion H; subst. exact Hd.
+  - assert (COMB : forall sym, sname sym = Some (tname t) ->
+              match dict_combine (tname t) sym d with Ret dd => equation_symbols_go eqn code rest dd fs | Raise e => Raise e end = Ret d' -> dict_ok d').
+    { intros sym Hs. destruct (dict_combine (tname t) sym d) as [dd|] eqn:Ec; [|discriminate]. apply IH. eapply dict_combine_ok; eauto. }
+    destruct (ttype t) eqn:Ety.
+    all: try (apply COMB; reflexivity).
+    + destruct (mem_string (tname t) fs); [apply IH, Hd|]. apply IH. apply dict_ok_set; [exact Hd|reflexivity].
+    + apply IH, Hd.
+Qed.
+Lemma unnamed_values d : dict_ok d -> unnamed (dict_values d) = [].
+Proof.
+  intros [_ Hn]. unfold unnamed, dict_values. induction d as [|[k v] d IH]; [reflexivity|]. cbn [map snd filter].
+  rewrite (Hn k v (or_introl eq_refl)). cbn [is_none]. apply IH. intros kk vv H. apply Hn. right. exact H.
+Qed.
+
+Lemma parse_equation_M_shape st syms : parse_equation_M st = POk syms -> is_blank st = false ->
+  if backticked st then emit_names syms = [] /\ n_emitted (unnamed syms) = 1 else unnamed syms = [].
+Proof.
+  unfold parse_equation_M. intros H Hb. rewrite Hb in H.
+  destruct (split_M st) as [stmts [se|]]; [discriminate|].
+  destruct (negb (length stmts =? 1)); [discriminate|].
+  fold (backticked st) in H. destruct (backticked st).
+  { inversion H; subst. split; reflexivity. }
+  destruct (negb (count_char "{" st =? count_char "}" st)); [discriminate|].
+  destruct (parse_equation_terms st) as [terms|e]; [|discriminate].
+  destruct (all_some (map term_str terms)) as [strs|]; [|discriminate].
+  destruct (all_some (map term_code terms)) as [codes|]; [|discriminate].
+  destruct (py_format (template st) strs) as [sd| |]; [|discriminate|discriminate].
+  destruct (py_format (template st) codes) as [cd| |]; [|discriminate|discriminate].
+  unfold equation_symbols in H. destruct (equation_symbols_go sd cd terms [] []) as [d|] eqn:Eg; cbn in H; [|discriminate].
+  inversion H; subst. apply unnamed_values. eapply go_dict_ok; [|exact Eg]. split; [constructor|intros k v []].
+Qed.
+
+Lemma unnamed_app a b : unnamed (a ++ b) = (unnamed a ++ unnamed b)%list.
+Proof. unfold unnamed. apply filter_app. Qed.
+
+(* ---------- the whole model ---------- *)
+(* For EVERY script, oracle and check_syntax setting: an accepted model has exactly as many equations / verbatim blocks
+   as there are DISTINCT names to which some statement gives an equation, plus one per verbatim statement. *)
+Theorem model_equation_count chk cs s out :
+  parse_model_M chk cs s = POk out ->
+  n_emitted out = count_new [] (emit_names (concat (stmt_symbols s))) + length (filter backticked (fst (split_M s))).
+Proof.
+  unfold parse_model_M, stmt_symbols. destruct (split_M s) as [stmts serr] eqn:Es. cbn [fst].
+  destruct (parse_statements chk cs stmts [] false) as [[by_eq pb]|pe|] eqn:Ep; [|discriminate|discriminate].
+  destruct serr; [discriminate|]. destruct pb; [discriminate|].
+  destruct (merge_symbols by_eq) as [o|] eqn:Em; cbn; [|discriminate]. intros H; inversion H; subst o.
+  destruct (parse_statements_forall2 _ _ _ _ _ _ _ Ep) as (tail & Eb & F). cbn in Eb. subst tail.
+  assert (MAP : map (fun st => match parse_equation_M st with POk L => L | _ => [] end) stmts = by_eq).
+  { clear - F. induction F as [|st L sts Ls HL _ IH]; [reflexivity|]. cbn [map]. rewrite HL, IH. reflexivity. }
+  rewrite MAP.
+  assert (GS : forall st, In st stmts -> is_blank st = false).
+  { intros st Hst. destruct (split_M_stmts _ _ _ _ Es Hst) as [_ B]. exact B. }
+  assert (T : forall x, In x (concat by_eq) -> sname x <> None -> tidy x).
+  { clear - F. induction F as [|st L sts Ls HL _ IH]; [intros x []|]. cbn [concat]. intros x Hx.
+    apply in_app_or in Hx as [Hx|Hx]; [exact (parse_equation_M_tidy st L HL x Hx)|apply IH, Hx]. }
+  rewrite (merge_symbols_exact by_eq out T Em). f_equal.
+  clear - F GS. induction F as [|st L sts Ls HL _ IH]; [reflexivity|].
+  cbn [concat filter]. rewrite unnamed_app, n_emitted_app.
+  pose proof (parse_equation_M_shape st L HL (GS st (or_introl eq_refl))) as Sh.
+  rewrite IH by (intros st' H'; apply GS; right; exact H').
+  destruct (backticked st); [destruct Sh as [_ ->]; reflexivity|rewrite Sh; reflexivity].
+Qed.
+
+(* the verbatim statements contribute no names, so the first summand only concerns equations; when no name is given an
+   equation twice it is the number of equation-carrying symbols *)
+Corollary model_equation_count_nodup chk cs s out :
+  parse_model_M chk cs s = POk out -> NoDup (emit_names (concat (stmt_symbols s))) ->
+  n_emitted out = length (emit_names (concat (stmt_symbols s))) + length (filter backticked (fst (split_M s))).
+Proof.
+  intros H ND. rewrite (model_equation_count chk cs s out H). f_equal. apply count_new_nodup; [exact ND|intros x _ []].
 Qed.
